@@ -409,6 +409,14 @@ static char *_parsestr(qlisttbl_t *tbl, const char *str) {
             strncpy(varstr, s, varlen + 3);  // ${str}
             varstr[varlen + 3] = '\0';
 
+            // a value that refers to itself can't be resolved, leave it as it is
+            if (strstr(newstr, varstr) != NULL) {
+                free(newstr);
+                free(varstr);
+                s = e;
+                continue;
+            }
+
             s = qstrreplace("sn", value, varstr, newstr);
             free(newstr);
             free(varstr);
